@@ -268,7 +268,8 @@ where
             .saturating_sub(self.font.character_spacing);
 
         let bb_height = if self.underline_color != DecorationColor::None {
-            self.font.underline.height + self.font.underline.offset
+            (self.font.underline.height + self.font.underline.offset)
+                .max(self.font.character_size.height)
         } else {
             self.font.character_size.height
         };
